@@ -23,7 +23,7 @@ META = {
         'int(xmax - xmin + 1) positions in unit steps offset by xmin; C13.BASIS-FRESH - func_fit scales the basis array in place, so '
         'every basis function returns a freshly allocated array (no memo decorator, no module-level cache). NOT decided: that the '
         'bases equal the textbook polynomials (delegated to scipy; numerical), least-squares optimality, exact recovery.'),
-    'floors': {'C13.REGISTRY': 3, 'C13.XNORM': 4, 'C13.FIXED-LAST': 3, 'C13.WEIGHTS': 3, 'C13.GRID': 2, 'C13.BASIS-FRESH': 4, 'C13.YFIT-ALL': 3},
+    'floors': {'C13.FLOAT-BASIS': 1, 'C13.REGISTRY': 3, 'C13.XNORM': 4, 'C13.FIXED-LAST': 3, 'C13.WEIGHTS': 3, 'C13.GRID': 2, 'C13.BASIS-FRESH': 4, 'C13.YFIT-ALL': 3},
 }
 
 TRACE = 'pydl/pydlutils/trace.py'
@@ -223,6 +223,46 @@ def check_basis_fresh(ctx, repo, resolved):
                   construct='%s shares its result: %s' % (q, (decos + shared)[:2]))
 
 
+FLOATS = {'float64', 'float32', 'float', 'float_', 'double', 'longdouble', 'd', 'f8', 'f4', 'f'}
+
+
+def _floating_dtype(e, fa, depth=0):
+    """True when the dtype expression is floating whatever the abscissa's type is."""
+    if isinstance(e, ast.Constant):
+        return e.value in FLOATS
+    d = dotted(e)
+    if d and d.split('.')[-1] in FLOATS:
+        return True
+    if isinstance(e, ast.Call) and call_name(e) in ('result_type', 'promote_types', 'find_common_type'):
+        return any(_floating_dtype(a, fa, depth + 1) for a in e.args)
+    if isinstance(e, ast.Name) and depth < 4:
+        ds = fa.defs(e)
+        return bool(ds) and all(v is not None and _floating_dtype(v, fa, depth + 1) for d_, v in ds)
+    return False
+
+
+def check_float_basis(ctx, repo, resolved):
+    """C13.FLOAT-BASIS: the array that receives the polynomial values is floating whatever the abscissa's dtype: allocated with an
+    integer abscissa's dtype, every non-integral value (P2(0) = -1/2) is truncated on assignment."""
+    from ..fn import FA
+    for key in sorted(x for x in resolved if x):
+        rel, q = key.split(':')
+        g = repo.func(rel, q)
+        ga = FA(g)
+        allocs = [c for c in walk_local(g.node) if isinstance(c, ast.Call) and call_name(c) in ('ones', 'zeros', 'empty', 'full')
+                  and any(k.arg == 'dtype' for k in c.keywords)]
+        ctx.need(allocs, '%s: allocation of the basis array not found' % q)
+        # Chebyshev polynomials and monomials have integer coefficients: integer abscissae give exact integer values.  Legendre
+        # polynomials do not (P2 = (3x^2 - 1)/2), so only a basis filled from scipy's legendre() needs a floating array.
+        if not any(isinstance(c, ast.Call) and call_name(c) == 'legendre' for c in walk_local(g.node)):
+            continue
+        for c in allocs:
+            dt = [k.value for k in c.keywords if k.arg == 'dtype'][0]
+            ctx.check('C13.FLOAT-BASIS', _floating_dtype(dt, ga), g, c, '%s: the basis array is floating for every abscissa type (dtype=%s)' % (q, src(dt)),
+                      msg='%s allocates the basis with the abscissa\'s own dtype (`%s`): for an integer array such as [-1, 0, 1] the polynomial values '
+                          'are truncated to integers (P2(0) becomes 0)' % (q, src(dt)), construct='%s basis dtype %s' % (q, src(dt)))
+
+
 def run(ctx):
     resolved = check_registry(ctx, ctx.repo)
     check_xnorm(ctx, ctx.repo)
@@ -230,3 +270,4 @@ def run(ctx):
     check_yfit_all(ctx, ctx.repo)
     check_grid(ctx, ctx.repo)
     check_basis_fresh(ctx, ctx.repo, resolved)
+    check_float_basis(ctx, ctx.repo, resolved)
